@@ -251,4 +251,15 @@ def reachSet (g : Sess → Sess → Ans) (skip : List Sess) (d : Nat) : List Ses
   let levels := (List.range d).map (fun k => reachLevel g skip (k + 1))
   sessions.filter (fun u => levels.any (fun l => l.contains u))
 
+/-- executable specification of the second report ("identified but could not be activated"): not skipped, not
+    entered within the depth limit, and answered with an NRC other than subFunctionNotSupported /
+    subFunctionNotSupportedInActiveSession from some session entered by 0..d-1 changes -/
+def identSet (g : Sess → Sess → Ans) (skip : List Sess) (d : Nat) : List Sess :=
+  let froms := (List.range d).map (fun k => reachLevel g skip k)
+  let entered := reachSet g skip d
+  sessions.filter (fun u => decide (u ∉ skip) && !entered.contains u &&
+    froms.any (fun l => l.any (fun p => match g p u with
+      | .nrc c => c != NRC_SFNS && c != NRC_SFNSIAS
+      | _ => false)))
+
 end Gallia.SessionScan
